@@ -18,7 +18,12 @@ import json, datetime, itertools, shutil, time
 from common import *
 
 SM, SC = "smC16", "base"
-EQS = ["stock", "flow", "constant", "conv"]
+EQS = ["stock", "flow", "constant", "conv", "k2", "conv2"]
+# settable elements (keys of the Lean model's stores): 0 `constant` (the only one the registered scenario lists), 1 `k2`,
+# 2 `tbl` (read by the lookup `conv`), 3 `tbl2` (read by `conv2`); values of a freshly built model:
+KEYS = {0: ("constants", "constant"), 1: ("constants", "k2"), 2: ("points", "tbl"), 3: ("points", "tbl2")}
+DEFAULTS = {0: 1, 1: 2, 2: 1, 3: 1}
+KIND = {"c": 0, "k": 1, "p": 2, "q": 3}
 STYLES = ("fresh", "sharedBase")
 
 
@@ -27,12 +32,16 @@ def build_model():
     from BPTK_Py import sd_functions as sd
     m = Model(starttime=0.0, stoptime=30.0, dt=1.0, name="c16")
     stock, flow, const, conv = m.stock("stock"), m.flow("flow"), m.constant("constant"), m.converter("conv")
+    k2, conv2 = m.constant("k2"), m.converter("conv2")
     m.points["tbl"] = [[0, 1.0], [100, 1.0]]
+    m.points["tbl2"] = [[0, 1.0], [100, 1.0]]
     conv.equation = sd.lookup(sd.time(), "tbl")
+    conv2.equation = sd.lookup(sd.time(), "tbl2")
     stock.initial_value = 0.0
     stock.equation = flow
-    flow.equation = const * conv
+    flow.equation = const * conv + k2 * conv2
     const.equation = 1.0
+    k2.equation = 2.0
     return m
 
 
@@ -44,7 +53,7 @@ def make_factory(style, made):
         b = BPTK_Py.bptk()
         made.append(b)
         b.register_scenario_manager({SM: {"model": base if base is not None else build_model()}})
-        b.register_scenarios(scenario_manager=SM, scenarios={SC: {}})
+        b.register_scenarios(scenario_manager=SM, scenarios={SC: {"constants": {"constant": 1.0}}})
         return b
     return factory
 
@@ -89,13 +98,21 @@ class Srv:
             shutil.rmtree(self.dir, ignore_errors=True)
 
 
-def settings_of(s):
-    """s: None | ('c', v) | ('p', v)"""
+def pairs(s):
+    """a setting: None | (kind, v) with kind c (`constant`) k (`k2`) p (`tbl`) q (`tbl2`) | ('m', ((key, v), ...)) -> [(key, v)]"""
     if s is None:
-        return {}
-    if s[0] == "c":
-        return {SM: {SC: {"constants": {"constant": float(s[1])}}}}
-    return {SM: {SC: {"points": {"tbl": [[0, float(s[1])], [100, float(s[1])]]}}}}
+        return []
+    if s[0] == "m":
+        return [(int(k), int(v)) for k, v in s[1]]
+    return [(KIND[s[0]], int(s[1]))]
+
+
+def settings_of(s):
+    d = {}
+    for k, v in pairs(s):
+        kind, name = KEYS[k]
+        d.setdefault(kind, {})[name] = float(v) if kind == "constants" else [[0, float(v)], [100, float(v)]]
+    return {SM: {SC: d}} if d else {}
 
 
 def setting_body(s):
@@ -185,21 +202,17 @@ def canon_body(data):
         return txt
 
 
-def sval(x):
-    return int(x[1])
-
-
 def op_code(i, op):
     i = 99 if i == GHOST else max(i, 0)
     if op[0] in ("s", "b", "R") and len(op) > 1 and op[1] is not None:
-        return f"{i}{op[0]}{sval(op[1])}"
+        return f"{i}{op[0]}" + "+".join(f"{k}={v}" for k, v in pairs(op[1]))
     return f"{i}{op[0]}"
 
 
 def op_str(i, op):
     who = "srv" if i == OWN else "ghost" if i == GHOST else str(i)
     if op[0] in ("s", "b", "R") and len(op) > 1 and op[1] is not None:
-        return f"{who}:{op[0]}({op[1][0]}={op[1][1]})"
+        return f"{who}:{op[0]}(" + ",".join(f"{KEYS[k][1]}={v}" for k, v in pairs(op[1])) + ")"
     return f"{who}:{op[0]}"
 
 
@@ -349,21 +362,28 @@ def check_conc_case(srvs, solo, style, ad, lists, pa, pb, schedule, rng):
     got += [res.get("A", ("missing", None)), res.get("B", ("missing", None))]
     got += [do(srv, i, op) for i, op in post]
     seq = pre + [(0, lists[0][pa]), (1, lists[1][pb])] + post
+    check_conc_case.last_got = got
+    made = len(srv.made)
     diffs, cnt = [], [0, 0]
     for pos, (i, op) in enumerate(seq):
         exp = solo.get(srvs, style, ad, lists[i])[cnt[i]]
         cnt[i] += 1
         if got[pos] != exp:
             diffs.append((pos, i, got[pos], exp))
-    return seq, [t for t, _ in got], diffs, res.get("overlapped", True)
+    return seq, [t for t, _ in got] + [f"made:{made}"], diffs, res.get("overlapped", True)
 
 
 # ---------------------------------------------------------------- generators
 def rand_setting(rng, none_weight=1):
-    r = rng.below(4 + none_weight)
+    """none | one element (listed constant, unlisted constant, either table) | two elements at once"""
+    r = rng.below(6 + none_weight)
     if r < none_weight:
         return None
-    return ("c", rng.range(2, 9)) if r < none_weight + 2 else ("p", rng.range(2, 9))
+    r -= none_weight
+    if r < 4:
+        return ("ckpq"[r], rng.range(2, 9))
+    ks = rng.shuffle([0, 1, 2, 3])[:2]
+    return ("m", tuple((k, rng.range(2, 9)) for k in sorted(ks)))
 
 
 def gen_list(rng, long, created=False, points_heavy=False, unpersisted=False, absent=False):
@@ -373,8 +393,8 @@ def gen_list(rng, long, created=False, points_heavy=False, unpersisted=False, ab
     `absent`: the instance leaves memory (stop / timeout) and is addressed again afterwards, several times."""
     def sett(w=1):
         s = rand_setting(rng, w)
-        if points_heavy and s is not None and rng.chance(1, 2):
-            s = ("p", s[1])
+        if points_heavy and s is not None and s[0] != "m" and rng.chance(1, 2):
+            s = (rng.choice(["p", "q"]), s[1])
         return s
     ops = [("c",)] if created else []
     ops.append(("b", sett(2)))
@@ -503,7 +523,9 @@ def check_case(srvs, solo, style, ad, lists, own, seq):
     """returns (tokens, diffs) — diffs: list of (position in seq, owner, got, expected)"""
     srv = srvs.new(style, ad)
     got = run_interleaving(srv, n_initial(lists), seq)
+    made = len(srv.made)
     srvs.retire(srv)
+    check_case.last_got = got
     diffs = []
     cnt = {}
     for pos, (i, op) in enumerate(seq):
@@ -511,7 +533,51 @@ def check_case(srvs, solo, style, ad, lists, own, seq):
         cnt[i] = cnt.get(i, 0) + 1
         if got[pos] != exp:
             diffs.append((pos, i, got[pos], exp))
-    return [t for t, _ in got], diffs
+    return [t for t, _ in got] + [f"made:{made}"], diffs
+
+
+# ---------------------------------------------------------------- values: the model's effective settings -> the numbers of the harness model
+def parse_eff(txt):
+    return {} if txt in ("-", "") else {int(a.split("=")[0]): int(a.split("=")[1]) for a in txt.split("+")}
+
+
+def flow_of(eff):
+    v = {k: eff.get(k, DEFAULTS[k]) for k in DEFAULTS}
+    return float(v[0] * v[2] + v[1] * v[3]), v
+
+
+def class_token(tok):
+    """`val` token -> class token"""
+    if tok.startswith("step:"):
+        return ":".join(tok.split(":")[:2])
+    return "ran" if tok.startswith("ran:") else tok
+
+
+def value_diff(tok, body):
+    """compare the numbers of a real step / run body with the closed form of the harness model evaluated on the effective
+    settings the Lean machine predicts; returns a text or None"""
+    try:
+        if tok.startswith("step:") and isinstance(body, tuple) and body[0] == 200:
+            _, t, memo = tok.split(":", 2)
+            effs = [parse_eff(x) for x in memo.split("|")]
+            flows = [flow_of(e)[0] for e in effs]
+            f, v = flow_of(effs[-1])
+            want = {"stock": float(sum(flows[:-1])), "flow": f, "constant": float(v[0]), "k2": float(v[1]), "conv": float(v[2]), "conv2": float(v[3])}
+            d = json.loads(body[1])[SM][SC]
+            got = {eq: float(next(iter(d[eq].values()))) for eq in want}
+            if got != want:
+                return f"step at t={t}: model predicts {want} from effective settings {effs}, the server returned {got}"
+        elif tok.startswith("ran:") and isinstance(body, tuple) and body[0] == 200:
+            f, v = flow_of(parse_eff(tok.split(":", 1)[1]))
+            d = json.loads(body[1])[SM][SC]["equations"]
+            got = {"stock@1": float(d["stock"]["1.0"]), "constant": float(d["constant"]["0.0"]), "k2": float(d["k2"]["0.0"]),
+                   "conv": float(d["conv"]["0.0"]), "conv2": float(d["conv2"]["0.0"])}
+            want = {"stock@1": f, "constant": float(v[0]), "k2": float(v[1]), "conv": float(v[2]), "conv2": float(v[3])}
+            if got != want:
+                return f"/run: model predicts {want}, the server returned {got}"
+    except Exception as e:
+        return f"value comparison failed: {type(e).__name__}: {e} on {tok!r}"
+    return None
 
 
 def split_seq(seq, n):
@@ -569,13 +635,23 @@ def probe_restore(srvs, solo):
     return detail is None, detail
 
 
+def cfg_line(facts, st):
+    return f"cfg {'1' if facts[st] else '0'} {'1' if facts['restore'] else '0'} {'1' if facts['freshObj'] else '0'}"
+
+
 def gen_lean(facts):
     b = lambda x: "true" if x else "false"
     out = ["import Bptk.Props.C16", "/-! GENERATED by harness/props/c16.py from /repo on every run — do not edit. -/",
            "namespace Bptk.C16.Gen"]
     for st in STYLES:
-        out.append(f"def cfg_{st} : Cfg := {{ instancesShareNothing := {b(facts[st])}, restoreOnlyAddressed := {b(facts['restore'])} }}")
-        if facts[st] and not facts["restore"]:
+        out.append(f"def cfg_{st} : Cfg := {{ instancesShareNothing := {b(facts[st])}, restoreOnlyAddressed := {b(facts['restore'])}, "
+                   f"freshObjects := {b(facts['freshObj'])} }}")
+        if not facts[st]:
+            out.append(f"theorem violated_{st} : ¬ C16_full cfg_{st} := C16_witness_shared cfg_{st} (by decide)")
+            out.append(f"#print axioms violated_{st}")
+            out.append(f"theorem violated_run_{st} : ¬ C16_full cfg_{st} := C16_witness_shared_run cfg_{st} (by decide)")
+            out.append(f"#print axioms violated_run_{st}")
+        elif not facts["restore"]:
             out.append(f"theorem violated_{st} : ¬ C16_full cfg_{st} := C16_witness_restore_all cfg_{st} (by decide)")
             out.append(f"#print axioms violated_{st}")
             out.append(f"theorem violated_ghost_{st} : ¬ C16_full cfg_{st} := C16_witness_restore_all_ghost cfg_{st} (by decide)")
@@ -583,9 +659,22 @@ def gen_lean(facts):
             out.append(f"theorem touches_others_{st} : ∃ (s : Server) (op : Nat × Req) (t : Option Nat), absent s.insts op.1 = true ∧ "
                        f"owner op ≠ t ∧ comp t (step cfg_{st} s op).1 ≠ comp t s :=\n  C16_absent_touches_others cfg_{st} (by decide)")
             out.append(f"#print axioms touches_others_{st}")
-        elif facts[st]:
-            out.append(f"theorem holds_{st} : C16_full cfg_{st} := C16_full_of_good cfg_{st} (by decide) (by decide)")
+        elif not facts["freshObj"]:
+            out.append(f"theorem violated_{st} : ¬ C16_full cfg_{st} := C16_witness_recycled cfg_{st} (by decide)")
+            out.append(f"#print axioms violated_{st}")
+            out.append(f"theorem violated_restore_{st} : ¬ C16_full cfg_{st} := C16_witness_recycled_restore cfg_{st} (by decide) (by decide)")
+            out.append(f"#print axioms violated_restore_{st}")
+        else:
+            out.append(f"theorem holds_{st} : C16_full cfg_{st} := C16_full_of_good cfg_{st} (by decide) (by decide) (by decide)")
             out.append(f"#print axioms holds_{st}")
+            out.append(f"theorem lifecycle_{st} (k : Nat) (ad : Bool) (pre ops : List (Nat × Req)) (i : Nat) (hk : k ≤ i) "
+                       f"(hpre : ∀ op ∈ pre, owner op ≠ some i) :\n"
+                       f"    respsOf (some i) (resps cfg_{st} (final cfg_{st} (Server.initAd k ad) pre) ops) =\n"
+                       f"    respsOf (some i) (resps cfg_{st} (Server.initAd 0 ad) (proj (some i) ops)) :=\n"
+                       f"  C16_lifecycle cfg_{st} (by decide) (by decide) (by decide) k ad pre ops i hk hpre")
+            out.append(f"#print axioms lifecycle_{st}")
+            out.append(f"theorem fresh_{st} (s : Server) : takeObj cfg_{st} s = Obj.fresh := takeObj_fresh cfg_{st} (by decide) s")
+            out.append(f"#print axioms fresh_{st}")
             out.append(f"theorem absent_local_{st} (s : Server) (op : Nat × Req) (t : Option Nat) (h : absent s.insts op.1 = true) "
                        f"(ht : owner op ≠ t) :\n    comp t (step cfg_{st} s op).1 = comp t s :=\n"
                        f"  C16_absent_touches_nobody cfg_{st} s op t (Or.inl (by decide)) h ht")
@@ -593,19 +682,61 @@ def gen_lean(facts):
             out.append(f"theorem commute_{st} (s : Server) (a b : Nat × Req) (h : owner a ≠ owner b) :\n"
                        f"    (step cfg_{st} (step cfg_{st} s b).1 a).2 = (step cfg_{st} s a).2 ∧\n"
                        f"    (step cfg_{st} (step cfg_{st} s a).1 b).2 = (step cfg_{st} s b).2 :=\n"
-                       f"  ⟨(C16_commute cfg_{st} (by decide) (by decide) s a b h).1, (C16_commute cfg_{st} (by decide) (by decide) s a b h).2.1⟩")
+                       f"  ⟨(C16_commute cfg_{st} (by decide) (by decide) (by decide) s a b h).1, "
+                       f"(C16_commute cfg_{st} (by decide) (by decide) (by decide) s a b h).2.1⟩")
             out.append(f"#print axioms commute_{st}")
-        else:
-            out.append(f"theorem violated_{st} : ¬ C16_full cfg_{st} := C16_witness_shared cfg_{st} (by decide)")
-            out.append(f"#print axioms violated_{st}")
-            out.append(f"theorem violated_run_{st} : ¬ C16_full cfg_{st} := C16_witness_shared_run cfg_{st} (by decide)")
-            out.append(f"#print axioms violated_run_{st}")
-    out += ["#print axioms C16_partial", "#print axioms C16_stop_timeout_local", "end Bptk.C16.Gen", ""]
+    out += ["#print axioms C16_values", "end Bptk.C16.Gen", ""]
     return "\n".join(out)
+
+
+def probe_fresh(srvs, solo):
+    """freshObjects: identity of the bptk / scenario / model objects across stop -> start, timeout -> start and stop -> restore on the
+    real server, and — behaviourally — whether settings written through the stopped instance are seen by the started one."""
+    detail = {}
+    ok = True
+    for ad in (False, True):
+        srv = srvs.new("fresh", ad)
+        try:
+            srv.uids[0], srv.uids[1] = srv.new_instances(2)
+            seen = []
+            def objs(label):
+                ent = srv.mgr._instances.get(srv.uids[label])
+                b = ent["instance"]
+                sc = b.get_scenario(SM, SC)
+                return [b, sc, sc.model, sc.constants, sc.points, sc.model.points]
+            seen += objs(0) + objs(1)
+            do(srv, 0, ("b", ("k", 7))); do(srv, 0, ("s", ("q", 4)))
+            do(srv, 1, ("b", ("p", 6))); do(srv, 1, ("s", ("k", 3)))
+            made0 = len(srv.made)
+            do(srv, 0, ("x",))                  # stop -> start
+            do(srv, 2, ("c",))
+            new = objs(2)
+            do(srv, 1, ("t",))                  # timeout -> start
+            do(srv, 3, ("c",))
+            new += objs(3)
+            if ad:                              # timeout -> restore of instance 1 (its next request) after the stop of instance 2
+                do(srv, 2, ("b", ("k", 9))); do(srv, 2, ("s", None)); do(srv, 2, ("x",))
+                do(srv, 1, ("k",))
+                if srv.uids[1] in srv.mgr._instances:
+                    new += objs(1)[:3] + objs(1)[5:]
+            recycled = [type(o).__name__ for o in new if any(o is p for p in seen)]
+            factory_calls = len(srv.made) - made0
+            sc2 = srv.mgr._instances[srv.uids[2]]["instance"].get_scenario(SM, SC) if srv.uids[2] in srv.mgr._instances else None
+            sc3 = srv.mgr._instances[srv.uids[3]]["instance"].get_scenario(SM, SC)
+            leftovers = {k: v for k, v in list(sc3.constants.items()) if k != "constant"}
+            tbl2 = sc3.model.points["tbl2"][0][1]
+            detail[f"adapter={ad}"] = {"objects_reused": recycled, "factory_calls_for_starts_and_restores": factory_calls,
+                                      "expected_factory_calls": 3 if ad else 2, "leftover_constants": leftovers, "tbl2": tbl2}
+            if recycled or factory_calls != (3 if ad else 2) or leftovers or tbl2 != 1.0:
+                ok = False
+        finally:
+            srvs.retire(srv)
+    return ok, detail
 
 
 FINDING_KEY = {"fresh": "cross-talk-fresh-model-factory", "sharedBase": "cross-talk-shared-base-model-factory"}
 RESTORE_KEY = "cross-talk-restore-rebuilds-other-instances"
+RECYCLE_KEY = "cross-talk-recycled-instance-object"
 
 
 def run(chk):
@@ -624,8 +755,13 @@ def _run(chk, srvs):
     facts, pdetail = {}, {}
     for st in STYLES:
         facts[st], pdetail[st] = probe_style(srvs, solo, st)
+    for st in STYLES:
+        if not facts[st]:
+            chk.notes[f"probe_detail[{st}]"] = [(p_, i_, str(g_)[:400], str(e_)[:400]) for p_, i_, g_, e_ in pdetail[st][3][:2]]
     facts["restore"], rdetail = probe_restore(srvs, solo)
-    chk.notes["cfg"] = dict({f"instancesShareNothing[{st}]": facts[st] for st in STYLES}, restoreOnlyAddressed=facts["restore"])
+    facts["freshObj"], fdetail = probe_fresh(srvs, solo)
+    chk.notes["freshness_probe"] = fdetail
+    chk.notes["cfg"] = dict({f"instancesShareNothing[{st}]": facts[st] for st in STYLES}, restoreOnlyAddressed=facts["restore"], freshObjects=facts["freshObj"])
     ok, why = chk.prove(gen_lean(facts))
     chk.cov["trusted_base"] = [
         "Lean 4.33 kernel; axioms propext, Classical.choice, Quot.sound (audited per run via #print axioms)",
@@ -643,7 +779,7 @@ def _run(chk, srvs):
     cases = []              # dicts: style, ad, lists, own, seq
     dist = {"exhaustive_merges": 0, "sampled_merges": 0, "with_adapter": 0, "with_creation": 0, "with_server_level": 0,
             "sharedBase": 0, "points_settings": 0, "begin_session_settings": 0, "restorations": 0,
-            "requests_to_absent_ids_on_adapter_servers": 0, "…_while_another_instance_holds_unpersisted_state": 0, "ghost_id_requests": 0}
+            "starts_after_a_stop_or_timeout_of_an_instance_that_received_settings": 0, "requests_to_absent_ids_on_adapter_servers": 0, "…_while_another_instance_holds_unpersisted_state": 0, "ghost_id_requests": 0}
     def add_case(st, ad, lists, own, seq, kind):
         cases.append({"style": st, "ad": ad, "lists": lists, "own": own, "seq": seq})
         dist[kind] += 1
@@ -651,9 +787,17 @@ def _run(chk, srvs):
         dist["with_creation"] += any(l and l[0][0] == "c" for l in lists)
         dist["with_server_level"] += bool(own)
         dist["sharedBase"] += st == "sharedBase"
-        dist["points_settings"] += any(len(o) > 1 and o[1] is not None and o[1][0] == "p" for _, o in seq)
+        dist["points_settings"] += any(len(o) > 1 and any(k >= 2 for k, _ in pairs(o[1])) for _, o in seq)
+        dist["settings_for_unlisted_elements"] = dist.get("settings_for_unlisted_elements", 0) + any(len(o) > 1 and any(k != 0 for k, _ in pairs(o[1])) for _, o in seq)
         dist["begin_session_settings"] += any(o[0] == "b" and len(o) > 1 and o[1] is not None for _, o in seq)
         dist["ghost_id_requests"] += sum(1 for i, _ in seq if i == GHOST)
+        wrote, gone_w = set(), False
+        for i, o in seq:
+            if len(o) > 1 and o[1] is not None and i >= 0: wrote.add(i)
+            if o[0] in ("x", "t") and i in wrote: gone_w = True
+            if o[0] == "c" and gone_w:
+                dist["starts_after_a_stop_or_timeout_of_an_instance_that_received_settings"] += 1
+                break
         if ad:
             for l in lists:
                 dist["restorations"] += any(l[j][0] == "t" and any(o[0] == "s" for o in l[:j]) and j + 1 < len(l) for j in range(len(l)))
@@ -694,6 +838,39 @@ def _run(chk, srvs):
     if not chk.quick:
         directed += [([[("b", ("p", 3)), ("s", None), ("x",), ("s", None)], [("b", None), ("s", ("p", 4)), ("b", ("p", 6)), ("s", None), ("r",)]], [("r",)]),
                      ([[("b", None), ("s", ("c", 2)), ("e",), ("r",), ("s", None)], [("c",), ("b", None), ("t",), ("e",)]], [])]
+    # wave 5, lifecycle: stop -> start, timeout -> start, stop -> restore, with session-level and step-level settings for elements the
+    # scenario does not list (k2, tbl2) written through the instance that goes away
+    A1 = [("b", ("k", 7)), ("s", ("q", 4)), ("x",)]
+    A2 = [("b", ("m", ((1, 6), (2, 3)))), ("s", ("c", 5)), ("t",)]
+    C1 = [("c",), ("b", None), ("s", None), ("r",)]
+    life = [(False, [A1, C1]), (True, [A2, C1]), (True, [A1, [("b", ("q", 2)), ("s", None), ("t",), ("s", None), ("r",)]])]
+    if not chk.quick:
+        life += [(True, [A1, [("c",), ("b", ("p", 5)), ("s", ("k", 3)), ("t",), ("s", None)]]), (False, [A2, A1, C1]),
+                 (True, [[("b", ("k", 8)), ("s", None), ("x",)], [("b", None), ("s", ("q", 6)), ("x",)], [("c",), ("b", None), ("s", None)]])]
+    for ad, lists in life:
+        ms = list(merges(lists))
+        if len(ms) > (12 if chk.quick else 200):
+            ms = rng.shuffle(ms)[:(12 if chk.quick else 200)]
+        for seq in ms:
+            add_case("fresh" if (chk.quick or rng.chance(1, 2)) else "sharedBase", ad, lists, [], seq, "exhaustive_merges")
+    # sequenced lifecycle cases: instance A receives settings and goes away (stop / timeout) BEFORE instance C is started; a third
+    # instance B runs sessions across both phases; with adapter C (or B) may time out and be restored after A's stop
+    def unl(w=0):
+        x = rand_setting(rng, w)
+        return x if (x is None or x[0] != "c" or rng.chance(1, 3)) else (rng.choice(["k", "q"]), x[1])
+    for n in range(50 if chk.quick else 400):
+        ad = rng.chance(1, 2)
+        A = [("b", unl())] + [("s", unl(1)) for _ in range(rng.range(1, 2))]
+        if rng.chance(1, 3): A += [("e",), ("b", unl(1)), ("s", unl(1))]
+        A.append(rng.choice([("x",), ("x",), ("t",)]))
+        C = [("c",), ("b", unl(3)), ("s", unl(3)), ("s", None)]
+        if ad and rng.chance(1, 2): C += [("t",), ("s", None)]
+        C.append(("r",))
+        B = gen_list(rng, long=False, unpersisted=ad and rng.chance(1, 2), absent=ad and rng.chance(1, 2))
+        h = rng.range(0, len(B))
+        ph1 = random_merge(rng, [A, B[:h]])
+        ph2 = [(2 if i == 0 else 1, o) for i, o in random_merge(rng, [C, B[h:]])]
+        add_case("fresh" if rng.chance(2, 3) else "sharedBase", ad, [A, B, C], [], ph1 + ph2, "sampled_merges")
     for lists, ghost in directed:
         ms = list(merges(lists + ([ghost] if ghost else [])))
         if ghost:
@@ -732,20 +909,20 @@ def _run(chk, srvs):
                        "(the shared-base style with points-heavy settings read by a lookup); concurrent-handler cases: one pair of requests to different instances runs in two "
                        "threads with a forced overlap inside the handlers; a case = factory style + adapter + the request sequence; "
                        "non-trivial = at least two owners apply a setting or one is stopped/timed out/created")
-    req, real, first, kinds = [], [], {}, {}
+    req, real, bodies, first, kinds = [], [], [], {}, {}
     for cs in cases:
         st, ad, lists, own, seq = cs["style"], cs["ad"], cs["lists"], cs["own"], cs["seq"]
         toks, diffs = check_case(srvs, solo, st, ad, lists, own, seq)
-        req += [f"cfg {'1' if facts[st] else '0'} {'1' if facts['restore'] else '0'}",
-                f"run {n_initial(lists)} {1 if ad else 0} " + (",".join(op_code(i, op) for i, op in seq) or "-")]
+        req += [cfg_line(facts, st), f"val {n_initial(lists)} {1 if ad else 0} " + (",".join(op_code(i, op) for i, op in seq) or "-")]
         real += ["ok", ",".join(toks)]
+        bodies += [None, [b for _, b in check_case.last_got]]
         for _, op in seq:
             kinds[op[0]] = kinds.get(op[0], 0) + 1
         nsett = sum(1 for l in lists + [own] if any(len(o) > 1 and o[1] is not None for o in l)) + any(i == GHOST for i, _ in seq)
         chk.case((st, ad, tuple(op_str(i, op) for i, op in seq)),
                  nontrivial=nsett >= 2 or any(o[0] in ("x", "t", "c") for l in lists for o in l),
                  sample={"style": st, "adapter": ad, "seq": [op_str(i, op) for i, op in seq]} if len(seq) > 8 else None)
-        key = RESTORE_KEY if (ad and not facts["restore"]) else FINDING_KEY[st]
+        key = RESTORE_KEY if (ad and not facts["restore"]) else RECYCLE_KEY if not facts["freshObj"] else FINDING_KEY[st]
         if diffs and key not in first:
             first[key] = (st, ad, lists, own, seq)
     # concurrent handlers for different instances
@@ -758,10 +935,11 @@ def _run(chk, srvs):
         seq, toks, diffs, overlapped = check_conc_case(srvs, solo, st, ad, lists, pa, pb, schedule, rng)
         conc["cases"] += 1; conc["overlapped"] += bool(overlapped)
         conc["by_schedule"][schedule] = conc["by_schedule"].get(schedule, 0) + 1
-        req += [f"cfg {'1' if facts[st] else '0'} {'1' if facts['restore'] else '0'}", f"run 2 {1 if ad else 0} " + ",".join(op_code(i, op) for i, op in seq)]
+        req += [cfg_line(facts, st), f"val 2 {1 if ad else 0} " + ",".join(op_code(i, op) for i, op in seq)]
         real += ["ok", ",".join(toks)]
+        bodies += [None, [b for _, b in check_conc_case.last_got]]
         chk.case((st, ad, schedule, pa, pb, tuple(op_str(i, op) for i, op in seq)), nontrivial=True)
-        if diffs and st not in conc_first and FINDING_KEY[st] not in first and not (ad and not facts["restore"]):
+        if diffs and st not in conc_first and FINDING_KEY[st] not in first and not (ad and not facts["restore"]) and facts["freshObj"]:
             conc_first[st] = (ad, lists, pa, pb, schedule, seq, diffs)
     dist["request_kinds"] = kinds
     dist["concurrent_handler_cases"] = conc
@@ -772,9 +950,21 @@ def _run(chk, srvs):
             first[FINDING_KEY[st]] = (st, False, pdetail[st][0], pdetail[st][1], pdetail[st][2])
     if not facts["restore"] and RESTORE_KEY not in first:
         first[RESTORE_KEY] = ("fresh", True, rdetail[0], [], rdetail[1])
+    if not facts["freshObj"] and RECYCLE_KEY not in first:
+        ls = [[("b", ("k", 7)), ("s", ("q", 4)), ("x",)], [("c",), ("b", None), ("s", None)]]
+        first[RECYCLE_KEY] = ("fresh", False, ls, [], [(0, o) for o in ls[0]] + [(1, o) for o in ls[1]])
     for key, (st, ad, lists, own, seq) in first.items():
+        l0, o0, s0 = lists, own, seq
         lists, own, seq = shrink(srvs, solo, st, ad, lists, own, seq)
         toks, diffs = check_case(srvs, solo, st, ad, lists, own, seq)
+        if not diffs:                       # the shrunk history does not reproduce: report the history as generated
+            lists, own, seq = l0, o0, s0
+            toks, diffs = check_case(srvs, solo, st, ad, lists, own, seq)
+        if not diffs:
+            chk.notes.setdefault("unreproduced", []).append({"key": key, "seq": [op_str(a, o) for a, o in s0]})
+            chk.add_finding(key, f"{st} factory: responses differed from the solo replays for {[op_str(a, o) for a, o in s0]} but not when run again",
+                            {"style": st, "ad": ad, "seq": [[a, list(o)] for a, o in s0], "n": len(l0)}, found_input=False)
+            continue
         pos, i, got, exp = diffs[0]
         chk.add_finding(key,
                         f"{st} factory{' with state adapter' if ad else ''}, requests {[op_str(a, o) for a, o in seq]}: response {pos} "
@@ -790,18 +980,37 @@ def _run(chk, srvs):
                         {"style": st, "ad": ad, "concurrent": {"lists": [[list(o) for o in l] for l in lists], "pa": pa, "pb": pb, "schedule": schedule},
                          "got": got, "solo": exp})
     model = drive("C16", req)
-    diff = next((j for j, (a, b) in enumerate(zip(model, real)) if a != b), None)
+    mclass = [",".join(class_token(t) for t in a.split(",")) for a in model]
+    diff = next((j for j, (a, b) in enumerate(zip(mclass, real)) if a != b), None)
+    # values: with all mechanism facts good, the numbers of every step / run body equal the closed form of the harness model on the
+    # effective settings the machine predicts
+    vdiff, nvals = None, 0
+    all_good = all(facts[k] for k in facts)
+    if all_good:
+        for j, (a, bs) in enumerate(zip(model, bodies)):
+            if bs is None:
+                continue
+            for tok, body in zip(a.split(","), bs):
+                if tok.startswith("step:") or tok.startswith("ran:"):
+                    nvals += 1
+                    d = value_diff(tok, body)
+                    if d and vdiff is None:
+                        vdiff = (j, d)
+    chk.cov["response_values_compared_with_model"] = nvals
     if diff is None and len(model) != len(real):
         diff = min(len(model), len(real))
     if not ok:
         chk.add_finding("obligation", f"proof obligations of C16 no longer check: {why}",
                         {"theorem": "Bptk.C16.Gen.* / Bptk.Props.C16", "detail": why}, found_input=False)
+    if vdiff is not None and not first and not conc_first and diff is None:
+        chk.add_finding("correspondence", f"model and implementation disagree on response values for {req[vdiff[0]]!r}: {vdiff[1]}",
+                        {"correspondence": "Drive/C16 values vs BptkServer bodies", "request": req[vdiff[0]], "detail": vdiff[1]}, found_input=False)
     if diff is not None and not first and not conc_first:
         chk.add_finding("correspondence", f"model and implementation disagree on request line {req[diff]!r}",
-                        {"correspondence": "Drive/C16 vs BptkServer", "request": req[diff], "model": model[diff] if diff < len(model) else None,
+                        {"correspondence": "Drive/C16 vs BptkServer", "request": req[diff], "model": mclass[diff] if diff < len(mclass) else None,
                          "impl": real[diff] if diff < len(real) else None}, found_input=False)
     elif diff is not None:
-        chk.notes["model_diff_under_violation"] = {"request": req[diff], "model": model[diff], "impl": real[diff]}
+        chk.notes["model_diff_under_violation"] = {"request": req[diff], "model": mclass[diff], "impl": real[diff]}
 
 
 def tup(o):
